@@ -159,5 +159,53 @@ def all_paths_return(fn):
     return ends(fn.body)
 
 
+# ---------------------------------------------------------------------------------------------
+# repeat-call clause on the getters: once a solution is cached, get_solution() hands it out without writing anything to the model
+# (so every later call - with whatever `remove_empty_*` flag - returns an equal result)
+
+CACHED_GETTERS = [("flowpaths/kflowdecomp.py", "kFlowDecomp"), ("flowpaths/kleastabserrors.py", "kLeastAbsErrors"), ("flowpaths/kminpatherror.py", "kMinPathError"),
+                  ("flowpaths/kpathcover.py", "kPathCover"), ("flowpaths/kflowdecompcycles.py", "kFlowDecompCycles"), ("flowpaths/kleastabserrorscycles.py", "kLeastAbsErrorsCycles"),
+                  ("flowpaths/kminpatherrorcycles.py", "kMinPathErrorCycles"), ("flowpaths/kpathcovercycles.py", "kPathCoverCycles"),
+                  ("flowpaths/minflowdecomp.py", "MinFlowDecomp"), ("flowpaths/minflowdecompcycles.py", "MinFlowDecompCycles"), ("flowpaths/minpathcover.py", "MinPathCover"),
+                  ("flowpaths/minpathcovercycles.py", "MinPathCoverCycles"), ("flowpaths/numpathsoptimization.py", "NumPathsOptimization"),
+                  ("flowpaths/mingenset.py", "MinGenSet"), ("flowpaths/minsetcover.py", "MinSetCover"), ("flowpaths/minerrorflow.py", "MinErrorFlow")]
+
+
+def _cached_getter_unit(relpath, cls):
+    from pyvc.unit import Unit, NoopLogger
+    from contracts.stubs import Poisoned, DataRead
+
+    class U:
+        logger = NoopLogger()
+
+    def h(c, f):
+        import inspect
+        cached = {"paths": [["a", "b"], []], "walks": [["a", "b"], []], "weights": [1, 0], "slacks": [0, 0], "edge_errors": {}, "graph": "G", "error": 0, "objective_value": 0}
+        if cls in ("MinSetCover", "MinGenSet"):
+            cached = [0, 1]                 # these classes cache a list (indices / numbers), not a dict
+        snapshot = repr(cached)
+        cleaned = {"cleaned": True}
+        me = Poisoned(_solution=cached, _is_solved=True, is_solved=lambda: True, check_is_solved=lambda: None, _check_is_solved=lambda: None,
+                      _remove_empty_paths=lambda s: cleaned, _remove_empty_walks=lambda s: cleaned, subsets=[["s0"], ["s1"]])
+        nparams = len([p for p in inspect.signature(f).parameters]) - 1
+        outcomes = []
+        for flag in ([True, False] if nparams >= 1 else [None]):
+            try:
+                r = f(me) if flag is None else f(me, flag)
+                outcomes.append("ok")
+            except DataRead as e:
+                outcomes.append("read self.%s although the solution is cached" % e.args[0])
+            except Exception as e:
+                outcomes.append("raised %s: %s" % (type(e).__name__, e))
+        written = dict(object.__getattribute__(me, "_written"))
+        c.prove("frame:cached-solution=>getter-returns-without-touching-other-state", all(o == "ok" for o in outcomes), prop=P, kind="frame", info=dict(outcomes=outcomes))
+        c.prove("frame:cached-solution=>getter-writes-nothing-to-the-model(repeat calls agree)", not written and repr(cached) == snapshot, prop=P, kind="frame",
+                info=dict(written=sorted(written)))
+    return Unit(relpath, cls + ".get_solution", h, globs=dict(utils=U), props=[P], name="%s:%s.get_solution[cached]" % (relpath, cls),
+                abstractions=["concrete pre-state: a cached solution object; every other attribute of self is poisoned, so the executions are representative of all such states"])
+
+
 def all_units():
-    return [FrameUnit(c) for c in CLASSES] + [StaticUnit()]
+    from contracts import c13
+    return [FrameUnit(c) for c in CLASSES] + [StaticUnit()] + [_cached_getter_unit(r, c) for r, c in CACHED_GETTERS] + \
+        [u for u in c13.u_min_loops() if "C18" in u.props]
